@@ -15,9 +15,16 @@ use std::sync::Arc;
 /// [garbage prefix | a | garbage suffix] sliced back to `a`: non-zero offset at
 /// every nesting level the slice reaches, usually not byte aligned.
 pub fn pad_slice(rng: &mut Rng, a: &ArrayRef) -> Option<ArrayRef> {
+    let np = if a.null_count() > 0 || rng.chance(50) { 30 } else { 0 };
+    pad_slice_with(rng, a, np)
+}
+
+/// as `pad_slice`, the padding rows having `null_pct` percent nulls (0: the result keeps
+/// "no validity buffer" when `a` has none)
+pub fn pad_slice_with(rng: &mut Rng, a: &ArrayRef, null_pct: usize) -> Option<ArrayRef> {
     let pre = 1 + rng.below(9);
     let post = rng.below(4);
-    let cfg = Cfg::wild(if a.null_count() > 0 || rng.chance(50) { 30 } else { 0 });
+    let cfg = Cfg::wild(null_pct);
     let (p, s) = match a.data_type() {
         // dictionaries / unions etc. are padded with copies of their own rows so that the
         // concatenation does not need to merge unrelated children
@@ -186,6 +193,44 @@ pub fn dict_shuffle(rng: &mut Rng, a: &ArrayRef) -> Option<ArrayRef> {
     }
 }
 
+/// dictionary arrays: the SAME dictionary (shared `values` allocation), keys re-pointed to
+/// other entries holding an equal value (use on a dictionary with duplicate entries, e.g. the
+/// output of `dict_shuffle`)
+pub fn dict_alt_keys(rng: &mut Rng, a: &ArrayRef) -> Option<ArrayRef> {
+    let DataType::Dictionary(k, _) = a.data_type() else { return None };
+    macro_rules! go {
+        ($kt:ty) => {{
+            let d = a.as_dictionary::<$kt>();
+            let vals = d.values();
+            let toks = crate::tok::rows(vals.as_ref());
+            let keys: Vec<Option<<$kt as ArrowPrimitiveType>::Native>> = (0..d.len())
+                .map(|i| {
+                    if d.keys().is_null(i) {
+                        None
+                    } else {
+                        let old = d.keys().value(i) as usize;
+                        let cands: Vec<usize> = (0..toks.len()).filter(|j| toks[*j] == toks[old] && vals.is_null(*j) == vals.is_null(old)).collect();
+                        Some(cands[rng.below(cands.len())] as <$kt as ArrowPrimitiveType>::Native)
+                    }
+                })
+                .collect();
+            let keys = PrimitiveArray::<$kt>::from_iter(keys);
+            DictionaryArray::<$kt>::try_new(keys, vals.clone()).ok().map(|x| Arc::new(x) as ArrayRef)
+        }};
+    }
+    match k.as_ref() {
+        DataType::Int8 => go!(Int8Type),
+        DataType::Int16 => go!(Int16Type),
+        DataType::Int32 => go!(Int32Type),
+        DataType::Int64 => go!(Int64Type),
+        DataType::UInt8 => go!(UInt8Type),
+        DataType::UInt16 => go!(UInt16Type),
+        DataType::UInt32 => go!(UInt32Type),
+        DataType::UInt64 => go!(UInt64Type),
+        _ => None,
+    }
+}
+
 /// view arrays: every long value in its own data buffer, in reverse order
 pub fn view_repartition(a: &ArrayRef) -> Option<ArrayRef> {
     fn go<T: ByteViewType>(v: &GenericByteViewArray<T>) -> ArrayRef {
@@ -248,22 +293,58 @@ pub fn ree_split(a: &ArrayRef) -> Option<ArrayRef> {
     }
 }
 
+/// list arrays: the same lists over a child array that itself has a non-zero offset
+/// (child = [garbage rows | values] sliced back), so the child's validity bitmap and buffers
+/// are addressed at an offset that the list's own offsets know nothing about
+pub fn list_child_offset(rng: &mut Rng, a: &ArrayRef) -> Option<ArrayRef> {
+    fn go<O: OffsetSizeTrait>(rng: &mut Rng, a: &ArrayRef) -> Option<ArrayRef> {
+        let l = a.as_list::<O>();
+        let (field, offsets, values, nulls) = l.clone().into_parts();
+        let child = pad_slice(rng, &values)?;
+        if child.len() != values.len() {
+            return None;
+        }
+        GenericListArray::<O>::try_new(field, offsets, child, nulls).ok().map(|x| Arc::new(x) as ArrayRef)
+    }
+    match a.data_type() {
+        DataType::List(_) => go::<i32>(rng, a),
+        DataType::LargeList(_) => go::<i64>(rng, a),
+        DataType::FixedSizeList(f, n) => {
+            let l = a.as_fixed_size_list();
+            let child = pad_slice(rng, l.values())?;
+            FixedSizeListArray::try_new_with_length(f.clone(), *n, child, l.nulls().cloned(), l.len()).ok().map(|x| Arc::new(x) as ArrayRef)
+        }
+        DataType::Struct(fields) if !fields.is_empty() => {
+            let st = a.as_struct();
+            let cols: Option<Vec<ArrayRef>> = st.columns().iter().map(|c| pad_slice(rng, c)).collect();
+            StructArray::try_new(fields.clone(), cols?, st.nulls().cloned()).ok().map(|x| Arc::new(x) as ArrayRef)
+        }
+        _ => None,
+    }
+}
+
 /// up to `k` distinct realisations of `a` (the first one is `a` itself); each is
 /// labelled with the mutator that produced it
 pub fn realisations(rng: &mut Rng, a: &ArrayRef, k: usize) -> Vec<(String, ArrayRef)> {
     let mut out: Vec<(String, ArrayRef)> = vec![("orig".into(), a.clone())];
+    // encoding-specific mutators first (callers ask for few realisations), then the generic ones
+    let shuffled = dict_shuffle(rng, a);
+    let shared = shuffled.as_ref().and_then(|x| dict_alt_keys(rng, x));
     let mut cands: Vec<(String, Option<ArrayRef>)> = vec![
-        ("pad_slice".into(), pad_slice(rng, a)),
-        ("toggle_validity".into(), toggle_validity(a)),
-        ("garbage_under_nulls".into(), garbage_under_nulls(rng, a)),
-        ("dict_shuffle".into(), dict_shuffle(rng, a)),
+        ("dict_shuffle".into(), shuffled),
+        ("dict_shuffle+alt_keys".into(), shared),
         ("view_repartition".into(), view_repartition(a)),
         ("ree_split".into(), ree_split(a)),
+        ("list_child_offset".into(), list_child_offset(rng, a)),
+        ("pad_slice".into(), pad_slice(rng, a)),
+        ("pad_slice_nonull".into(), if a.null_count() == 0 && a.nulls().is_none() { pad_slice_with(rng, a, 0).filter(|x| x.nulls().is_none()) } else { None }),
+        ("garbage_under_nulls".into(), garbage_under_nulls(rng, a)),
+        ("toggle_validity".into(), toggle_validity(a)),
     ];
     // second-order: pad_slice of a mutated one
     let extra: Vec<(String, Option<ArrayRef>)> = cands
         .iter()
-        .skip(1)
+        .filter(|(n, _)| n != "pad_slice" && n != "pad_slice_nonull")
         .filter_map(|(n, x)| x.as_ref().map(|x| (format!("{n}+pad_slice"), pad_slice(rng, x))))
         .collect();
     cands.extend(extra);
